@@ -153,6 +153,8 @@ func zzSeqOnWireHandshake() {
 		},
 		ShouldEncrypt: epoch > 0,
 		ShouldWrapCID: wrap,
+		// the flight handlers set this flag on the packet that carries Finished; it must never rewind the counter
+		ResetLocalSequenceNumber: zzsymChoice("reset_flag", 2) == 1,
 	}
 	raws, err := c.processHandshakePacket(pkt, hs)
 	zzsymAssert(err == nil, "process_ok")
@@ -174,4 +176,31 @@ func zzSeqOnWireHandshake() {
 		zzsymCover("hs_plain")
 	}
 	zzsymAssert(common.LocalSequenceNumber[epoch] == pre+uint64(len(raws)), "counter_advanced_per_record")
+}
+
+// Export point: generateState -> serialize -> deserialize carries the next unused sequence number of the current
+// epoch unchanged for every 64-bit counter value (including values past 2^48-1, which must keep refusing writes after
+// an import) and every epoch index in range. The remaining half (generateInternalState storing it back) is C19.
+//
+//symgo:entry covers=exported
+func zzSeqExportContinuity() {
+	st := &dtlsstate.State12{Common: &dtlsstate.Common{IsClient: zzsymChoice("isClient", 2) == 1, LocalVersion: protocol.Version1_2}}
+	st.CipherSuite = &zzFakeSuite{}
+	epoch := uint16(1 + zzsymChoice("epoch", 2))
+	st.SetLocalEpoch(epoch)
+	for i := 0; i <= int(epoch); i++ {
+		st.LocalSequenceNumber = append(st.LocalSequenceNumber, zzsymU64("ctr"))
+	}
+	next := st.LocalSequenceNumber[epoch]
+	s, err := generateState(st)
+	zzsymAssert(err == nil, "export_ok")
+	zzsymAssert(s.sequenceNumber == next, "exported_next_sequence_number")
+	ser, err := s.serialize()
+	zzsymAssert(err == nil, "serialize_ok")
+	zzsymAssert(ser.SequenceNumber == next, "serialized_next_sequence_number")
+	var back State
+	back.deserialize(*ser)
+	zzsymAssert(back.sequenceNumber == next, "imported_next_sequence_number")
+	zzsymAssert(back.localEpoch == epoch, "imported_epoch")
+	zzsymCover("exported")
 }
